@@ -395,6 +395,9 @@ def run_property(pid, tier, seed):
             json.dump(dict(property=pid, entry=entry, features=fset, profile=profile, kind=v['kind'], msg=v['msg'], inputs=v['inputs'],
                            native=reps, stack=v['stack'], events=v['events']), open(rp, 'w'), indent=1)
             violations_out.append((rp, v))
+        if violations_out and os.environ.get('VERIF_STOP_EARLY'):
+            log("[stop-early] a reproduced violation was found; remaining runs skipped")
+            break
         if time.time() > deadline:
             inconclusive.append("time budget of %ds exhausted before all runs were started" % budget_s)
             status = max(status, 2)
